@@ -129,9 +129,12 @@ PROPS = {
     'C04': dict(coq=['props/C04.vo'], families=[('c04', 2500, 60000), ('l2match', 500, 10000), ('grp-l2mixed', 300, 6000)], projections=['handlers', 'events'], oracle=oracle_c04, classify=classify_c04, prepare=prepare_c04,
         technique='Coq proofs about the pieces of selector matching against an independent Coq reference semantics (spec/CssSem.v); the extracted reference semantics is the oracle for the '
                   'implementation\'s element-handler invocations; extraction-based correspondence run of the AST/compiler/VM/stack model',
-        level_text='Theorems C04_local_names_compare_ascii_case_insensitively (hash or bytes comparison = ASCII case-insensitive name equality, all byte strings), C04_attribute_operators_are_css '
-                   '(all six operators, all values/operands/case flags), C04_nth_index_is_an_plus_b + C04_an_plus_b_meaning (wrapping i32 arithmetic decides An+B while index-b stays in i32). '
-                   'Partial: the statement "VM match set = CSS match set for every selector set and tag sequence" is not yet a theorem; it is decided by running the extracted reference semantics '
+        level_text='Theorems (props/C04.v): names (hash or bytes comparison = ASCII case-insensitive equality), all six attribute operators, An+B under wrapping i32 arithmetic, '
+                   'C04_predicate_decides_compound (an instruction predicate decides its compound on every element), C04_vm_stack_is_the_tag_induced_tree and C04_vm_stack_and_counters_follow_the_tree '
+                   '(stack, sibling counters and typed counters = the tree induced by explicit tags, every tag sequence), C04_attribute_bailout_and_recovery_equal_one_phase_execution, '
+                   'C04_ast_denotes_the_selector_list (adding a selector to any AST adds its id exactly at the elements CssSem.selector_matches selects, nothing else changes) and '
+                   'C04_left_to_right_matching_is_css_matching. Partial: the layout of compiled instructions (Compiler::compile_nodes) and the execution of jumps / hereditary jumps against the AST denotation '
+                   'are not yet theorems; end to end the property is decided by running the extracted reference semantics '
                    '(tree induced by explicit tags, right-to-left matching over the ancestor chain) on the model\'s tag stream and comparing with the handler invocations of the real rewriter, '
                    'for selectors from the full grammar, plus the correspondence run of the VM model. Known finding NotCompoundArg.',
         level_note='Trusted as C01 plus: the pairing of selector strings with their structure in tools/gen.py (cssparser / selectors crate parsing is not modelled), spec/CssSem.v as the meaning of "CSS semantics".'),
